@@ -16,7 +16,7 @@ RULE = (
     "generated streams of 1..n command/response pairs over all command codes with sessions, parameter encryption, failed "
     "responses, the same code back to back with different configurations, streams ending after a command; per-file corpus "
     "streams; stream events must equal the concatenation of the individual decodes (response decoded with the preceding "
-    "command's code and encryption request), every individual decode must equal the reference interpreter's, and events_to_objs (fed with a list, an iterator, the live stream decoder) must yield one equal object per message in order; distinct = "
+    "command's code and encryption request), every individual decode must equal the reference interpreter's, and events_to_objs (fed with a list, an iterator, the live stream decoder) must yield one equal object per message in order; warn mode: the same streams with some messages (the last one in 60 %) declared longer than their structure and padded accordingly must decode to the concatenation of the individual warn-mode decodes; distinct = "
     "distinct (sequence of (code, sessions, decrypt, encrypt, failure)) streams"
 )
 ASSUMPTIONS = ["message boundaries and pairing come from the reference interpreter, not from the decoder under test"]
@@ -122,6 +122,54 @@ def check_stream(case, rec):
     rec.sample(dict(case=case.short(), messages=len(ref.messages), events=len(ts.events)), cap=3)
 
 
+def check_padded_stream(case, msgs, rec, rng):
+    """Warn mode: some messages (always possibly the last) are declared longer than their structure and carry that many
+    filler bytes; a message's boundary is still what its own size field says.  The stream decode must equal the
+    concatenation of the individual warn-mode decodes (response decoded with its command's code and encryption request)."""
+    ref = case.ref()
+    if ref.outcome.kind != "ok" or len(ref.messages) != len(msgs):
+        return
+    n = len(msgs)
+    pick = {n - 1} if rng.random() < 0.6 else set()
+    pick.add(rng.randrange(n))
+    parts = []
+    for i, m in enumerate(msgs):
+        b = m.d
+        if i in pick:
+            k = rng.choice((1, 2, 5, 9))
+            b = b[:2] + (len(b) + k).to_bytes(4, "big") + b[6:] + bytes([0xE0 + j for j in range(k)])
+        parts.append(b)
+    metas = [(rm.kind, rm.cc, rm.enc) for rm in ref.messages]
+    rec.count("padded_streams")
+    if n - 1 in pick:
+        rec.count("padded_streams_last_message")
+    compare_padded(parts, metas, rec, dict(kind="padded", messages=sorted(pick), of=n), ("padded", case.sig, tuple(sorted(pick))))
+
+
+def compare_padded(parts, metas, rec, fault, sig):
+    data = b"".join(parts)
+    pc = cases.Case("CommandResponseStream", data, origin="padded-stream", fault=fault, sig=sig)
+    rep = pc.replay(parts=[p.hex() for p in parts], metas=[list(m) for m in metas])
+    ts = TR.run("CommandResponseStream", data, strict=False)
+    rec.case(pc.sig, nontrivial=True)
+    singles = []
+    for (kind, cc, enc), b in zip(metas, parts):
+        t = TR.run("Command", b, strict=False) if kind == "command" else TR.run("Response", b, strict=False, cc=cc, enc=enc)
+        if t.outcome[0] != "ok":
+            rec.count(f"padded_single_{t.okind()}")
+            return
+        singles.extend(t.events)
+    if ts.outcome[0] != "ok":
+        rec.violation("padded-stream", f"stream:{ts.okind()}", f"{pc.short()}\nwarn-mode stream decode ended with {ts.outcome}; every message decodes alone", rep)
+        return
+    key = lambda e: (e.kind, e.path, e.tname, e.value) if e.kind == "M" else ("W", e.err["cls"], e.err.get("cpath"))
+    a, b = [key(e) for e in ts.events], [key(e) for e in singles]
+    if a != b:
+        i = next((k for k, (x, y) in enumerate(zip(a, b)) if x != y), min(len(a), len(b)))
+        rec.violation("padded-stream", "concat", f"{pc.short()}\nwarn-mode stream decode ({len(a)} events) != concatenation of the individual decodes ({len(b)}); first difference at #{i}: "
+                                                f"{ts.events[i] if i < len(a) else None!r} vs {singles[i] if i < len(b) else None!r}", rep)
+
+
 def run_shard(shard, rec):
     rng = random.Random(f"{shard.get('seed', 0)}:C09:{shard['name']}")
     with probes.Anchors(ANCHORS, rec):
@@ -130,8 +178,9 @@ def run_shard(shard, rec):
                 check_stream(case, rec)
                 rec.count("carried_state_streams")
         elif shard["kind"] == "gen":
-            for case, _msgs in cases.stream_cases(rng, shard["n"], max_pairs=shard["max_pairs"], big=shard.get("tier") == "thorough"):
+            for case, msgs in cases.stream_cases(rng, shard["n"], max_pairs=shard["max_pairs"], big=shard.get("tier") == "thorough"):
                 check_stream(case, rec)
+                check_padded_stream(case, msgs, rec, rng)
         else:
             st = corpus.streams()
             names = sorted(st)[shard["start"] :: shard["step"]]
@@ -141,11 +190,14 @@ def run_shard(shard, rec):
 
 def finish(m, tier):
     inc = probes.missing(m, ANCHORS)
-    for k in ("responses_enc", "responses_plain", "objects_compared", "carried_state_streams"):
+    for k in ("responses_enc", "responses_plain", "objects_compared", "carried_state_streams", "padded_streams_last_message", "rooted_streams", "object_feeds_compared"):
         if not m["counters"].get(k):
             inc.append(f"no case of {k}")
     return dict(inconclusive=inc)
 
 
 def replay(r, rec):
+    if r.get("parts"):
+        compare_padded([bytes.fromhex(p) for p in r["parts"]], [tuple(m) for m in r["metas"]], rec, r.get("fault"), ("replay",))
+        return
     check_stream(cases.Case.from_replay(r), rec)
